@@ -113,7 +113,8 @@ int main(int argc, char **argv) {
 	std::string rdir = opt.count("replays") ? opt["replays"] : "replays";
 	mkdir(rdir.c_str(), 0755);
 
-	long evals = 0, nontriv = 0;
+	long max_shrinks = atol(opt.count("max-shrinks") ? opt["max-shrinks"].c_str() : "1500");
+	long evals = 0, nontriv = 0, shrink_runs = 0;
 	std::set<uint64_t> distinct_nt, distinct_all;
 	std::map<std::string, long> tagc, counters;
 	std::set<std::string> edges;
@@ -146,6 +147,18 @@ int main(int argc, char **argv) {
 		std::vector<int> si = *vecgen(sscale ? sscale : 1);
 		ref::Bytes data(di.begin(), di.end()), sched(si.begin(), si.end());
 		if (!sscale) sched.clear();
+		if (failed) {
+			// shrinking phase: bounded effort (flaky or huge cases must not run for hours)
+			if (++shrink_runs > max_shrinks) return;
+			Verdict sv = run_case_forked(*p, data, sched, excluded);
+			if (!sv.ok && sv.signature != "wallclock-backstop") {
+				last_fail = sv;
+				fail_data = data;
+				fail_sched = sched;
+			}
+			RC_ASSERT(sv.ok || sv.signature == "wallclock-backstop");
+			return;
+		}
 		Verdict v = run_case_forked(*p, data, sched, excluded);
 		evals++;
 		if (v.signature == "wallclock-backstop") { inconclusive++; return; }
@@ -189,7 +202,7 @@ int main(int argc, char **argv) {
 		f << "{\n \"property\": \"" << p->id << "\",\n \"seed\": " << atol(seed.c_str()) << ",\n";
 		f << " \"evaluations\": " << evals << ",\n \"nontrivial\": " << nontriv << ",\n";
 		f << " \"distinct_nontrivial\": " << distinct_nt.size() << ",\n \"distinct\": " << distinct_all.size() << ",\n";
-		f << " \"inconclusive\": " << inconclusive << ",\n \"wall_s\": " << wall << ",\n";
+		f << " \"shrink_runs\": " << shrink_runs << ",\n \"inconclusive\": " << inconclusive << ",\n \"wall_s\": " << wall << ",\n";
 		f << " \"rule\": \"" << json_escape(p->rule) << "\",\n";
 		f << " \"nt_hashes\": [";
 		{ bool first = true; for (auto h : distinct_nt) { f << (first ? "" : ",") << "\"" << h << "\""; first = false; } }
